@@ -15,6 +15,7 @@ import (
 	"os"
 	"path/filepath"
 	"reflect"
+	"regexp"
 	"runtime"
 	"sort"
 	"strings"
@@ -48,13 +49,26 @@ func (r *result) put(obs J) {
 		obs["msg"] = r.Msg
 		obs["srcerr"] = r.IsSrcErr
 	}
-	if r.Outcome == "unstable" || r.Outcome == "repdiff" || r.Outcome == "snapdiff" {
+	if r.Outcome == "unstable" || r.Outcome == "repdiff" || r.Outcome == "snapdiff" || r.Outcome == "addrleak" {
 		obs["msg"] = r.Msg
 	}
 	if r.Outcome == "panic" {
 		obs["panic"] = r.PanicVal
 		obs["panicat"] = r.PanicAt
 	}
+}
+
+// goAddr: how Go prints a heap address.  Output never depends on where a value lives (C02): none may show up in it.
+var goAddr = regexp.MustCompile(`0xc[0-9a-f]{9}`)
+
+// noAddress turns a successful result whose output holds a memory address (and whose source does not) into "addrleak".
+func noAddress(src string, r result) result {
+	if r.Outcome == "ok" {
+		if a := goAddr.Find(r.Out); a != nil && !strings.Contains(src, string(a)) {
+			return result{Outcome: "addrleak", Out: r.Out, Msg: "the output holds a memory address: " + string(a)}
+		}
+	}
+	return r
 }
 
 // guard runs f, converting a panic into a result.
@@ -534,7 +548,7 @@ func runRender(c J) J {
 	defer rs.cleanup()
 	obs["src"] = bytesJSON(rs.src)
 	obs["text"] = rs.src
-	res := doRender(rs, jstr(c, "entry"))
+	res := noAddress(rs.src, doRender(rs, jstr(c, "entry")))
 	if d := rs.snaps.firstDiff(); d != "" && res.Outcome == "ok" {
 		res = result{Outcome: "snapdiff", Out: res.Out, Msg: d}
 	}
